@@ -69,10 +69,24 @@ class OsProxy(object):
         self.path = PathProxy(world)
 
     def __getattr__(self, name):
-        return getattr(_real_os, name)
+        # every other os.<function> called from kerneldll is recorded as an
+        # event too (no yield): it marks a place where the file system or the
+        # process state may have changed, which the directed families use
+        val = getattr(_real_os, name)
+        if callable(val) and not isinstance(val, type):
+            w = self._w
+
+            def logged(*a, **kw):
+                w.note_syscall("os:" + name)
+                return val(*a, **kw)
+            return logged
+        return val
 
     def getpid(self):
         return self._w.sim_pid()
+
+    def open(self, path, flags, *a, **kw):
+        return self._w.track_fd(_real_os.open(path, flags, *a, **kw))
 
     def fdopen(self, fd, *a, **kw):
         f = _real_os.fdopen(fd, *a, **kw)
@@ -144,6 +158,7 @@ class TempfileProxy(object):
             raise OSError(28, "No space left on device (simulated)")
         fd, name = _real_tempfile.mkstemp(suffix=suffix, prefix=prefix,
                                           dir=dir, text=text)
+        self._w.track_fd(fd)
         self._w.on_fileop("mkstemp", name)
         return fd, name
 
